@@ -280,7 +280,10 @@ func (n *Node) stopClean() bool {
 	s.logf("STOP node %s gen %d", n.name, inst.gen)
 	s.stat("node.clean_stops", 1)
 	inst.shutdown <- true
-	ok := s.Drain(30*time.Second, func() bool { return inst.stopped })
+	ok := false
+	s.quiet(3000, 10*time.Second, func() {
+		ok = s.Drain(8*time.Second, func() bool { return inst.stopped })
+	})
 	if !ok {
 		if !s.failed() {
 			s.harnessErr("clean stop of %s did not finish", n.name)
